@@ -140,19 +140,18 @@ pub(crate) fn string(input: &[u8]) -> IResult<&[u8], Cow<'_, str>> {
     if i >= input.len() {
         return Err(nom::Err::Error(NomError::new(input, ErrorKind::Char)));
     }
-    if i > 1 {
-        if escapes == 0 {
-            if let Ok(s) = std::str::from_utf8(&input[1..i]) {
-                return Ok((&input[i + 1..], Cow::Borrowed(s)));
-            }
-        } else {
-            let data = &input[1..i];
-            let len = i - 1 - escapes;
-            let mut idx = 1;
-            let s = parse_string(data, len, &mut idx)
-                .map_err(|_| nom::Err::Error(NomError::new(input, ErrorKind::Char)))?;
-            return Ok((&input[i + 1..], Cow::Owned(s)));
+    // the string may be empty, e.g. `""`
+    if escapes == 0 {
+        if let Ok(s) = std::str::from_utf8(&input[1..i]) {
+            return Ok((&input[i + 1..], Cow::Borrowed(s)));
         }
+    } else {
+        let data = &input[1..i];
+        let len = i - 1 - escapes;
+        let mut idx = 1;
+        let s = parse_string(data, len, &mut idx)
+            .map_err(|_| nom::Err::Error(NomError::new(input, ErrorKind::Char)))?;
+        return Ok((&input[i + 1..], Cow::Owned(s)));
     }
     Err(nom::Err::Error(NomError::new(input, ErrorKind::Char)))
 }
